@@ -115,9 +115,14 @@ def attribute(mism):
     return out
 
 
+OPS_SEEN = collections.Counter()       # (call, outcome) pairs exercised on the real classes in this run
+
+
 def behaviour_features(events):
     """What a behaviour exercises (for the non-triviality counts)."""
     f = set()
+    for ev in events:
+        OPS_SEEN["%s/%s" % (ev["call"].get("op"), "ok" if ev["err"] == "ok" else "refused")] += 1
     pending_seen_closed = False
     filled_any = False
     for ev in events:
@@ -300,6 +305,14 @@ def run(prop, replay_file=None):
         rep.cov["rule"] = ("distinct call sequences (TLC -simulate behaviours of MC_BrokerObs replayed into the real classes, "
                            "plus random-driver executions validated by BrokerTrace) counted as non-trivial when: " + desc)
         rep.cov["exhaustive"] = False
+        # vacuity guard: every kind of call of the specification, accepted and refused, was exercised on the real classes
+        rep.cov["calls_exercised"] = dict(sorted(OPS_SEEN.items()))
+        need = ["sub_acct/ok", "sub_acct/refused", "wd_acct/ok", "wd_acct/refused", "create/ok", "create/refused", "sub_pf/ok", "sub_pf/refused",
+                "wd_pf/ok", "wd_pf/refused", "submit/ok", "submit/refused", "update/ok", "update/refused", "price/ok",
+                "pf_sub/refused", "pf_wd/refused", "pf_mark/ok", "pf_mark/refused", "pf_txn/ok", "pf_txn/refused"]
+        missing = [k for k in need if not OPS_SEEN.get(k)]
+        if missing:
+            rep.machinery.append("vacuity: these call outcomes were never exercised on the real classes: %s" % missing)
     finally:
         shutil.rmtree(w, ignore_errors=True)
     return rep
